@@ -18,8 +18,9 @@ bit 63), every `int32` coordinate, every `uint16` namespace, empty lists.
 Domain restrictions that are part of the statement (and literally the driver's `inDomain` predicate):
 * mixed lists / mixed area polygons are sums: an element is a reference *or* a lat/lng (`canonical`) — the
   encoding writes only the half the flag bit selects (`mixed_needs_canonical_counterexample`);
-* a relation member's type is one of point/path/area/relation (`Member.typeOk`): the role word has
-  `FeatureTypeBits = 2` bits for it (`member_wide_type_counterexample`).
+* `Members` / `Relation`: proved for member types point/path/area/relation (`Member.typeOk`, `…_partial`); the
+  full statements are false for the other `b6.FeatureType` values (`members_roundtrip_counterexample`): finding
+  `member-type-wide`, the type is OR-ed into `FeatureTypeBits = 2` bits of the role word.
 -/
 namespace B6.Props.C11
 open B6.Model.Records B6.Model.Varint
@@ -128,7 +129,13 @@ def tagsExample : List Tag :=
    ⟨4#64, .refs [⟨8193#16, 9#64⟩, ⟨3#16, 1#64⟩]⟩, ⟨5#64, .mixed mixedExample⟩, ⟨6#64, .refs []⟩]
 example : Tags.canonical tagsExample = true ∧ (Tags.marshal 8193#16 tagsExample).isSome = true := by decide
 
-theorem members_roundtrip (p : BitVec 16) (ms : List Member) (ht : ∀ m ∈ ms, m.typeOk = true)
+/-- what the property demands of `Members` (for *every* member value) — false, see `members_roundtrip_counterexample` -/
+def members_roundtrip_statement : Prop :=
+  ∀ (p : BitVec 16) (ms : List Member) (bs : Bytes), Members.marshal p ms = some bs →
+    ∀ rest : Bytes, Members.dec p (bs ++ rest) = some (ms, bs.length)
+
+/-- the part that holds: member types point/path/area/relation (`Member.typeOk`, the driver's class predicate) -/
+theorem members_roundtrip_partial (p : BitVec 16) (ms : List Member) (ht : ∀ m ∈ ms, m.typeOk = true)
     (bs : Bytes) (h : Members.marshal p ms = some bs) (rest : Bytes) :
     Members.dec p (bs ++ rest) = some (ms, bs.length) := by
   obtain ⟨hok, rfl⟩ := of_marshal h
@@ -230,8 +237,12 @@ theorem area_roundtrip (n : Namespaces) (a : Area) (hc : Tags.canonical a.tags =
 def areaExample : Area := ⟨tagsExample, .mixed agmExample, [⟨tnRelation nssExample, 51#64⟩, ⟨tnRelation nssExample, 60#64⟩, ⟨tnPath nssExample, 3#64⟩]⟩
 example : (areaExample.marshal nssExample).isSome = true := by decide
 
-/-- relations with the member list in every primary namespace `t` (point, path, area, relation) -/
-theorem relation_roundtrip (t : BitVec 64) (n : Namespaces) (r : Relation) (hc : Tags.canonical r.tags = true)
+def relation_roundtrip_statement : Prop :=
+  ∀ (t : BitVec 64) (n : Namespaces) (r : Relation), Tags.canonical r.tags = true → ∀ bs : Bytes, r.marshal t n = some bs →
+    ∀ rest : Bytes, Relation.dec t n (bs ++ rest) = some (r, bs.length)
+
+/-- relations with the member list in every primary namespace `t` (point, path, area, relation); member types < 4 -/
+theorem relation_roundtrip_partial (t : BitVec 64) (n : Namespaces) (r : Relation) (hc : Tags.canonical r.tags = true)
     (ht : ∀ m ∈ r.members, m.typeOk = true) (bs : Bytes) (h : r.marshal t n = some bs) (rest : Bytes) :
     Relation.dec t n (bs ++ rest) = some (r, bs.length) := by
   unfold Relation.marshal at h
@@ -350,9 +361,18 @@ theorem area_relations_primary_counterexample :
 theorem mixed_needs_canonical_counterexample :
     RefLLs.dec 8193#16 (RefLLs.enc 8193#16 [⟨⟨8193#16, 5#64⟩, ⟨1#32, 2#32⟩⟩]) = some ([⟨⟨8193#16, 5#64⟩, LatLng.zero⟩], 4) := by decide
 
-/-- a member of type 5 (collection) comes back as type 1 (path) with role 5 instead of 4: the type is OR-ed into
-a 2-bit field -/
-theorem member_wide_type_counterexample :
-    (Members.dec 0#16 (Members.enc 0#16 [⟨5#64, 4#64, ⟨0#16, 0#64⟩⟩])).map (·.1) = some [⟨1#64, 5#64, ⟨0#16, 0#64⟩⟩] := by decide
+/-- finding `member-type-wide`: a member of type 5 (collection) marshals without a panic and comes back as type 1
+(path) with role 5 instead of 4 — the type is OR-ed into a 2-bit field of the role word. -/
+theorem members_roundtrip_counterexample : ¬ members_roundtrip_statement := by
+  intro h
+  have := h 0#16 [⟨5#64, 4#64, ⟨0#16, 0#64⟩⟩] [1, 21, 0] (by decide) []
+  revert this
+  decide
+
+theorem relation_roundtrip_counterexample : ¬ relation_roundtrip_statement := by
+  intro h
+  have := h 3#64 ⟨1#16, 2#16, 2#16, 3#16⟩ ⟨[], [⟨5#64, 4#64, ⟨0#16, 0#64⟩⟩], []⟩ (by decide) [0, 1, 21, 1, 0, 2] (by decide) []
+  revert this
+  decide
 
 end B6.Props.C11
